@@ -81,8 +81,8 @@ class ReadBuf:
         v = self.read_string()
         if len(v) == 0:
             return 0
-        pad, f = (b'\xff', '>i') if ord(v[0:1]) & 0x80 != 0 else (b'\x00', '>I')
-        return self._parse_mpint(v, pad, f)
+        # Two's complement, big-endian.  Note: only the most significant word carries the sign, so parsing every 32-bit word as signed would corrupt negative numbers whose lower words have their top bit set.
+        return int.from_bytes(v, byteorder='big', signed=True)
 
     def read_line(self) -> str:
         return self._buf.readline().rstrip().decode('utf-8', 'replace')
